@@ -495,23 +495,20 @@ impl Repr {
                 // SAFETY: `new_len <= len <= capacity`
                 unsafe { heap.set_len(new_len) };
             } else {
-                // See `reverse` method for the explanation of the ordering.
-                if heap.reference_count().fetch_sub(1, Release) == 1 {
-                    // `heap` is unique, we can set the new length in place.
-
-                    // See `reverse` method for the explanation of the ordering.
-                    heap.reference_count().fetch_add(1, Acquire);
-
-                    // SAFETY: `heap` is unique, we can reallocate in place.
+                // See `reserve` method for the explanation of the ordering.
+                if heap.is_unique() {
+                    // SAFETY: `heap` is unique, we can set the new length in place.
                     unsafe { heap.set_len(new_len) };
                 } else {
+                    // The length is stored in the shared buffer: we need our own copy. Copy
+                    // first, then give up our reference (see `reserve`).
                     // SAFETY: `ptr` is valid for `len` bytes, and `HeapBuffer` contains valid UTF-8.
                     let str = unsafe {
-                        let ptr = self.0 as *mut u8;
-                        let slice = slice::from_raw_parts_mut(ptr, new_len);
-                        str::from_utf8_unchecked_mut(slice)
+                        let ptr = self.0 as *const u8;
+                        str::from_utf8_unchecked(slice::from_raw_parts(ptr, new_len))
                     };
-                    *self = Repr::from_str(str)?;
+                    let new = Repr::from_str(str)?;
+                    self.replace_inner(new);
                 }
             }
         } else if self.is_static_buffer() {
